@@ -491,6 +491,18 @@ func runGeoJSON(data json.RawMessage) vh.Verdict {
 		} else if d := sameCoordinates(g.Coordinates, pg.Coordinates); d != "" {
 			return vh.Verdict{OK: false, Key: gjKey(&c, "roundtrip geojson.Unmarshal", kind, shape, "coordinates"), Msg: d}
 		}
+		// the same object with its members in another order (sorted by name, so "coordinates" comes before "type")
+		if st, err := sortedMembers(text); err != nil {
+			return vh.Fail("harness-json", "%v", err)
+		} else if parsed, err := geojson.Unmarshal(st); err != nil {
+			if len(deferred) == 0 {
+				return vh.Verdict{OK: false, Key: gjKey(&c, "member order geometry", kind, shape, "error"), Msg: fmt.Sprintf("%v: %s", err, st)}
+			}
+		} else if pg, ok := parsed.(*geojson.Geometry); !ok {
+			return vh.Verdict{OK: false, Key: gjKey(&c, "member order geometry", kind, shape, "not-a-geometry"), Msg: fmt.Sprintf("%T from %s", parsed, st)}
+		} else if d := sameCoordinates(g.Coordinates, pg.Coordinates); d != "" {
+			return vh.Verdict{OK: false, Key: gjKey(&c, "member order geometry", kind, shape, "coordinates"), Msg: d}
+		}
 		// the feature
 		ftext, err := json.Marshal(f)
 		if err != nil {
@@ -509,6 +521,18 @@ func runGeoJSON(data json.RawMessage) vh.Verdict {
 		}
 		if !sameProps(f.Properties, bf.Properties) {
 			return vh.Verdict{OK: false, Key: gjKey(&c, "roundtrip feature", kind, "props="+c.FC[fi].Props, "properties"), Msg: fmt.Sprintf("%q became %q", f.Properties, bf.Properties)}
+		}
+		// members sorted by name: "geometry" (with its own "type") comes before the feature's "type"
+		if st, err := sortedMembers(ftext); err != nil {
+			return vh.Fail("harness-json", "%v", err)
+		} else if pf2, err := geojson.Unmarshal(st); err != nil {
+			return vh.Verdict{OK: false, Key: gjKey(&c, "member order feature", kind, shape, "error"), Msg: fmt.Sprintf("%v: %s", err, st)}
+		} else if bf2, ok := pf2.(*geojson.Feature); !ok {
+			return vh.Verdict{OK: false, Key: gjKey(&c, "member order feature", kind, shape, "not-a-feature"), Msg: fmt.Sprintf("%T from %s", pf2, st)}
+		} else if d := sameCoordinates(g.Coordinates, bf2.Geometry.Coordinates); d != "" {
+			return vh.Verdict{OK: false, Key: gjKey(&c, "member order feature", kind, shape, "coordinates"), Msg: d}
+		} else if !sameProps(f.Properties, bf2.Properties) {
+			return vh.Verdict{OK: false, Key: gjKey(&c, "member order feature", kind, "props="+c.FC[fi].Props, "properties"), Msg: fmt.Sprintf("%q became %q", f.Properties, bf2.Properties)}
 		}
 		stats["feature_roundtrips"]++
 	}
@@ -530,6 +554,20 @@ func runGeoJSON(data json.RawMessage) vh.Verdict {
 		}
 		if !sameProps(fc.Features[fi].Properties, back.Features[fi].Properties) {
 			return vh.Verdict{OK: false, Key: gjKey(&c, "roundtrip collection", c.FC[fi].Kind, "props="+c.FC[fi].Props, "properties"), Msg: fmt.Sprintf("%q became %q", fc.Features[fi].Properties, back.Features[fi].Properties)}
+		}
+	}
+	// members sorted by name: "features" comes before the collection's "type"
+	if st, err := sortedMembers(ctext); err != nil {
+		return vh.Fail("harness-json", "%v", err)
+	} else if p2, err := geojson.Unmarshal(st); err != nil {
+		return vh.Verdict{OK: false, Key: gjKey(&c, "member order collection", "-", vh.Canon(shapes), "error"), Msg: fmt.Sprintf("%v: %s", err, st)}
+	} else if back2, ok := p2.(*geojson.FeatureCollection); !ok || len(back2.Features) != len(fc.Features) {
+		return vh.Verdict{OK: false, Key: gjKey(&c, "member order collection", "-", vh.Canon(shapes), "feature-count"), Msg: fmt.Sprintf("%T from %s", p2, trim(string(st), 300))}
+	} else {
+		for fi := range fc.Features {
+			if d := sameCoordinates(fc.Features[fi].Geometry.Coordinates, back2.Features[fi].Geometry.Coordinates); d != "" {
+				return vh.Verdict{OK: false, Key: gjKey(&c, "member order collection", c.FC[fi].Kind, shapes[fi], "coordinates"), Msg: d}
+			}
 		}
 	}
 	stats["collection_roundtrips"]++
@@ -740,4 +778,22 @@ func runGeoJSON(data json.RawMessage) vh.Verdict {
 		return deferred[0]
 	}
 	return vh.Verdict{OK: true, Stats: stats}
+}
+
+// sortedMembers re-writes a JSON text with the members of every object sorted by name (numbers keep their text).
+func sortedMembers(text []byte) ([]byte, error) {
+	d := json.NewDecoder(strings.NewReader(string(text)))
+	d.UseNumber()
+	var v interface{}
+	if err := d.Decode(&v); err != nil {
+		return nil, err
+	}
+	return json.Marshal(v)
+}
+
+func trim(s string, n int) string {
+	if len(s) > n {
+		return s[:n] + "..."
+	}
+	return s
 }
